@@ -1,1 +1,75 @@
-/-! Property theorems for C01 (stub: not built yet). -/
+import UsualProofs.C01.Step
+/-!
+# C01 — talloc: an object lives exactly while some parent or reference holds it
+
+Property-level theorems about the executable model `Usual.C01` (lean/Usual/C01/Talloc.lean) of
+usual/talloc.c **as repaired by fixes/F15-talloc-throw-child-cx.patch** (`Cfg.fixed`); the
+behaviour of the code as pinned (`Cfg.old`) is refuted by `…_old_counterexample`.
+
+Reading guide
+* `State` = heap of chunks (user objects, TRef chunks, `.memlimit` chunks) addressed by ids, the
+  registered null context, the destructor/release log, and two ghost flags (`oof`: fuel of a
+  model recursion exhausted; `stuck`: the `list_for_each_safe` protocol assertion failed).  Both
+  flags are printed by the driver on every state of every correspondence run and were never set.
+* `wfOK : State → Bool` (lean/Usual/C01/Observe.lean) is the structural invariant, evaluated by
+  the driver on every state: child lists ↔ parent fields, TRef chunks ↔ `refs` entries, no
+  dangling id, internal chunks are leaves in front of the plain children, no FLAG_PENDING left.
+* `Ranked rk s`: `rk` strictly increases from every holder (primary parent, referencing
+  context) to what it holds and the null context ranks lowest — i.e. the holder graph is acyclic.
+* `OpOK rk s op`: the arguments are live user objects and an operation that adds a holder edge
+  (reference, steal, reparent) keeps the graph acyclic — the property's quantifier.
+-/
+namespace UsualProps.C01
+open Usual.C01
+
+/-- **wf_init**: the empty heap is well formed and acyclic. -/
+theorem wf_init : wfOK {} = true ∧ ∀ rk, Ranked rk {} :=
+  ⟨by decide, ranked_empty⟩
+
+example : wfOK (runOps Cfg.fixed {} [.alloc none 8 false false, .alloc (some 0) 9 false false,
+    .reference (some 0) 1 false]) = true := by decide
+
+/-- **wf_step** (all operations except `talloc_disable_null_tracking`, hence `_partial`): one
+public operation on a well-formed state with an acyclic holder graph, with arguments inside the
+property's quantifier, gives a well-formed state with an acyclic holder graph — child lists
+and parent fields agree, TRef chunks and reference lists agree, no id dangles, no FLAG_PENDING
+survives, for any placement of references and refusing destructors.
+
+Full statement `wf_step`: the same for every `op : Op`.  Missing: `Op.nullOff`
+(`talloc_disable_null_tracking` detaches the children of the null context and frees it); it is
+covered by the correspondence run only. -/
+theorem wf_step_partial (s : State) (op : Op) (rk : Nat → Nat)
+    (hwf : wfOK s = true) (hrk : Ranked rk s) (hop : OpOK rk s op)
+    (hoof : (step Cfg.fixed s op).1.oof = false) (hstuck : (step Cfg.fixed s op).1.stuck = false) :
+    wfOK (step Cfg.fixed s op).1 = true ∧ ∃ rk', Ranked rk' (step Cfg.fixed s op).1 := by
+  obtain ⟨h1, h2⟩ := step_wf Cfg.fixed rfl op ((wfOK_iff s).1 hwf) hrk hop hoof hstuck
+  exact ⟨(wfOK_iff _).2 h1, h2⟩
+
+/-- states reachable by operations inside the quantifier (ghost flags clear) -/
+inductive Reach : State → Prop
+  | init : Reach {}
+  | step (s : State) (op : Op) (rk : Nat → Nat) : Reach s → Ranked rk s → OpOK rk s op →
+      (step Cfg.fixed s op).1.oof = false → (step Cfg.fixed s op).1.stuck = false →
+      Reach (step Cfg.fixed s op).1
+
+/-- **wf_reachable**: the invariant holds in every reachable state (induction over op lists). -/
+theorem wf_reachable (s : State) (h : Reach s) : wfOK s = true ∧ ∃ rk, Ranked rk s := by
+  induction h with
+  | init => exact ⟨wf_init.1, fun _ => 0, wf_init.2 _⟩
+  | step s op rk _ hrk hop hoof hstuck ih => exact wf_step_partial s op rk ih.1 hrk hop hoof hstuck
+
+/-- non-vacuity: a refusing destructor under a `talloc_from_cx` root (the F15 history) is inside
+the quantifier, runs with clear flags and ends well formed -/
+example :
+    let s := runOps Cfg.fixed {} [.alloc none 10 true false, .alloc (some 0) 10 false false,
+      .setDtor 1 (.refuse 1), .free 0]
+    wfOK s = true ∧ s.oof = false ∧ s.stuck = false ∧ s.live 1 = true ∧ s.live 0 = false := by decide
+
+/-- **F15** (code as pinned): `talloc_from_cx` root, child whose destructor refuses,
+`talloc_free(root)` — `throw_child`'s `talloc_reparent` is refused by the cx check, the root is
+released and the live child keeps a parent id that is gone (use after free in C). -/
+theorem wf_step_old_counterexample :
+    wfOK (runOps Cfg.old {} [.alloc none 10 true false, .alloc (some 0) 10 false false,
+      .setDtor 1 (.refuse 1), .free 0]) = false := by decide
+
+end UsualProps.C01
